@@ -233,7 +233,12 @@ pub fn gen_case(seed: u64, k: u64) -> Case {
     };
     let initial_bps = pick_bps(&mut r);
     // swarm weights
-    let w: Vec<u32> = (0..13).map(|_| 1 + r.below(6) as u32).collect();
+    let mut w: Vec<u32> = (0..13).map(|_| 1 + r.below(6) as u32).collect();
+    // one case in four is a "breakpoint churn" session: the breakpoint list is replaced again and
+    // again while the machine runs (races between the session's write and the machine thread's reads)
+    if r.chance(1, 4) {
+        w = vec![4, 1, 5, 1, 1, 1, 1, 0, 2, 1, 12, 0, 1];
+    }
     let delays: [u64; 8] = [0, 0, 1_000, 10_000, 49_000, 50_000, 51_000, 200_000];
     let n_ops = r.range(6, 40);
     let mut ops = vec![];
